@@ -66,6 +66,19 @@ def globset_origin(ctx, rule):
                 fail="the filterer is rooted at `%s` instead of the project origin: ignore files discovered from the project origin are matched relative to a different root" % a0)
 
 
+def whitelist_files(ctx, rule):
+    """the whitelist the CLI hands to the path filterer is the explicitly watched paths, as given, that are files (shared with C11: the whitelist test compares spellings)"""
+    facts = ctx.facts
+    wn = body_of(ctx, rule, "watchexec_cli::filterer::WatchexecFilterer::new")
+    loc = wn.loc(wn.line)
+    wl = [c for c in facts.descendants(wn) if c.kind == "closure" and pathx.desc(thir.peel(thir.root(c))) in ("Path::is_file(p)", "PathBuf::is_file(p)")]
+    wl_lets = [pathx.desc(st["i"]) for st in thir.walk(thir.root(wn)) if isinstance(st, dict) and st.get("k") == "let" and st["p"].get("k") == "bind" and st["p"].get("n") == "whitelist"
+               and isinstance(st.get("i"), dict)]
+    ctx.require(len(wl) == 1 and wl_lets == ["Iterator::filter(Iterator::map(slice::iter(args.filtering.paths), Into::into), closure)"], rule, "whitelist-files",
+                "the whitelist handed to the path filterer is the explicitly watched paths that are files", loc, detail=str(wl_lets)[:200],
+                fail="the whitelist is no longer `explicitly watched paths that are files` (%s)" % str(wl_lets)[:160])
+
+
 def run(ctx):
     ctx.level = "other"
     facts = ctx.facts
@@ -83,6 +96,7 @@ def run(ctx):
     ctx.rule("R12.1", "independence: on every path through WatchexecFilterer::new (all values of the discovery flags) the explicit sources "
                       "--filter, --filter-file, --ignore, --exts, --fs-events reach the filterer unconditionally and --ignore-file entries reach it through "
                       "explicit_ignore_files() or dirs::ignores(); in dirs::ignores the explicit entries are appended after every flag-guarded filter, on every path")
+    ctx.also("R12.1", "the filterer's origin is the project origin from the arguments")
     ctx.rule("R12.2", "flag -> source table: the built-in default list is added iff !no_default_ignore; dirs::ignores is called iff !no_discover_ignore; "
                       "from_origin iff !no_project_ignore; from_environment iff !no_global_ignore; the applies_to filter iff no_vcs_ignore")
     ctx.rule("R12.3", "--ignore-nothing sets every no_*_ignore flag")
@@ -151,12 +165,7 @@ def run(ctx):
         ctx.require(okff, "R12.1", "filter-files-read", "every --filter-file is read and its lines are appended to the filter patterns", loc,
                     fail="the --filter-file entries are no longer all read into the filter patterns")
         # the whitelist is `the watched paths that are files`; the program filters are installed exactly when some were given
-        wl = [c for c in facts.descendants(wn) if c.kind == "closure" and pathx.desc(thir.peel(thir.root(c))) in ("Path::is_file(p)", "PathBuf::is_file(p)")]
-        wl_lets = [pathx.desc(st["i"]) for st in thir.walk(thir.root(wn)) if isinstance(st, dict) and st.get("k") == "let" and st["p"].get("k") == "bind" and st["p"].get("n") == "whitelist"
-                   and isinstance(st.get("i"), dict)]
-        ctx.require(len(wl) == 1 and wl_lets == ["Iterator::filter(Iterator::map(slice::iter(args.filtering.paths), Into::into), closure)"], "R12.1", "whitelist-files",
-                    "the whitelist handed to the path filterer is the explicitly watched paths that are files", loc, detail=str(wl_lets)[:200],
-                    fail="the whitelist is no longer `explicitly watched paths that are files` (%s)" % str(wl_lets)[:160])
+        whitelist_files(ctx, "R12.1")
         pg = [v for k, v in (fin[-1]["f"] if fin else []) if k == "progs"]
         okp = False
         if pg and thir.peel(pg[0]).get("k") == "if":
